@@ -98,7 +98,8 @@ def build_llgo(dirpath, out, backend="A", tags=(), pkg=".", extra_args=(), env_e
     e = llgo_env(backend, cachetag)
     if env_extra:
         e.update(env_extra)
-    cmd = [llgo_path(), "build", "-o", out]
+    # -O0 always: LLVM 14's in-process default<O2> pipeline is unusable on this IR (DESIGN §2); backend C optimises with clang 22 -O2
+    cmd = [llgo_path(), "build", "-O0", "-o", out]
     if backend in ("B", "C"):
         cmd.append("-gen-llfiles")
     if tags:
@@ -185,6 +186,14 @@ def load_known(pid):
             if not l.startswith("known: property=%s " % pid):
                 continue
             rest = l.split(" ", 2)[2]
+            if rest.startswith("set="):
+                # a root cause with many failing inputs: the listed inputs are in a file, one key per line
+                setf, _, what = rest[4:].partition(" :: ")
+                for k in open(os.path.join(VERIF, setf)):
+                    k = k.rstrip("\n")
+                    if k:
+                        res.append({"property": pid, "status": "known", "key": k, "what": what, "set": setf})
+                continue
             if not rest.startswith("key="):
                 continue
             key, _, what = rest[4:].partition(" :: ")
@@ -199,6 +208,7 @@ class Report:
         self.pid, self.tier, self.level = pid, tier, level
         self.t0 = time.time()
         self.known = {d["key"]: d for d in load_known(pid) if d.get("status") == "known"}
+        self.set_hits = {}
         self.viol = []   # (key, what, replay_obj)
         self.known_hit = {}
         self.coverage = {}
@@ -206,7 +216,10 @@ class Report:
         self.seed = int(os.environ.get("VERIF_SEED", "0") or 0)
 
     def violation(self, key, what, replay=None):
-        if key in self.known:
+        if key in self.known and "set" in self.known[key]:
+            h = self.set_hits.setdefault(self.known[key]["set"], [0, key, self.known[key]["what"]])
+            h[0] += 1
+        elif key in self.known:
             self.known_hit[key] = what
         else:
             self.viol.append((key, what, replay))
@@ -215,6 +228,8 @@ class Report:
         os.makedirs(os.path.join(VERIF, "evidence"), exist_ok=True)
         rd = os.path.join(VERIF, "replays", self.pid)
         os.makedirs(rd, exist_ok=True)
+        for setf, (n, ex, what) in sorted(self.set_hits.items()):
+            print("KNOWN-FINDING: property=%s %s :: %d listed inputs of %s reproduced, e.g. %s" % (self.pid, what, n, setf, ex))
         for key, what in sorted(self.known_hit.items()):
             print("KNOWN-FINDING: property=%s %s :: %s" % (self.pid, key, what[:300].replace("\n", " | ")))
         seen = set()
@@ -237,11 +252,11 @@ class Report:
             "coverage": self.coverage, "assumptions": self.assumptions,
             "wall_s": round(time.time() - self.t0, 2), "violations": nviol,
         }
-        ev["coverage"]["known_findings_reproduced"] = sorted(self.known_hit)
+        ev["coverage"]["known_findings_reproduced"] = sorted(self.known_hit) + ["%s (%d listed inputs)" % (k, v[0]) for k, v in sorted(self.set_hits.items())]
         with open(os.path.join(VERIF, "evidence", self.pid + ".json"), "w") as f:
             json.dump(ev, f, indent=1, sort_keys=True)
         print("%s tier=%s violations=%d known=%d wall=%.1fs coverage: %s" % (
-            self.pid, self.tier, nviol, len(self.known_hit), time.time() - self.t0,
+            self.pid, self.tier, nviol, len(self.known_hit) + sum(v[0] for v in self.set_hits.values()), time.time() - self.t0,
             {k: v for k, v in self.coverage.items() if isinstance(v, (int, bool, float))}))
         sys.exit(1 if nviol else 0)
 
